@@ -37,7 +37,7 @@ static void body(int t){
 		case ')': vs_call("unlock",depth); rcu_read_unlock(); vs_ret("unlock",0); depth--; break;
 		}
 	}
-	vs_quiet_begin(); rcu_unregister_thread(); vs_quiet_end();
+	rcu_unregister_thread();      /* scheduled like any operation: it takes the registry lock, which the reclaimer may hold inside its grace period */
 }
 int main(int argc,char**argv){
 	static char obuf[1<<22]; setvbuf(stdout,obuf,_IOFBF,sizeof obuf);
